@@ -1,6 +1,7 @@
 package main
 
 import (
+	"encoding/hex"
 	"fmt"
 	"go/token"
 	"go/types"
@@ -361,8 +362,18 @@ func init() {
 		// ---- fmt / errors ----
 		"fmt.Errorf":  func(m *Machine, a []Val) Val { return m.newErr("fmt.Errorf") },
 		"errors.New":  func(m *Machine, a []Val) Val { return m.newErr("errors.New") },
-		"fmt.Sprintf": func(m *Machine, a []Val) Val { return Str{C: "<sprintf>"} },
-		"fmt.Sprint":  func(m *Machine, a []Val) Val { return Str{C: "<sprint>"} },
+		"fmt.Sprintf": func(m *Machine, a []Val) Val { return m.sprintf(a) },
+		"fmt.Sprint": func(m *Machine, a []Val) Val {
+			out := Str{}
+			for _, c := range m.sliceElems(a[0]) {
+				r, ok := m.renderArg(c.V, 'v')
+				if !ok {
+					return Str{C: "<sprint>"}
+				}
+				out = m.strConcat(out, r)
+			}
+			return out
+		},
 		"fmt.Println": func(m *Machine, a []Val) Val { return Tuple{CI(64, 0), nilErr()} },
 		"fmt.Printf":  func(m *Machine, a []Val) Val { return Tuple{CI(64, 0), nilErr()} },
 		"errors.Is": func(m *Machine, a []Val) Val {
@@ -482,6 +493,40 @@ func init() {
 			}
 			xt, yt := x.Term(), y.Term()
 			return Int{W: 64, S: "(ite (bvslt " + xt + " " + yt + ") (_ bv18446744073709551615 64) (ite (= " + xt + " " + yt + ") (_ bv0 64) (_ bv1 64)))"}
+		},
+		"(*math/big.Int).Bytes": func(m *Machine, a []Val) Val {
+			x := bigV(m, a[0])
+			if x.V != nil {
+				return m.strToBytes(Str{C: string(x.V.Bytes())})
+			}
+			abs := m.ex.Name("bigabs", fmt.Sprintf("(_ BitVec %d)", bigW), "(ite (bvslt "+x.T+" "+bigZero+") (bvneg "+x.T+") "+x.T+")")
+			n := m.ex.NondetBV("bigbyteslen", 64)
+			m.ex.Assume(And(sle(CI(64, 0), n), sle(n, CI(64, bigW/8))))
+			ba := &ByteArr{T: zeroArr, Cap: n, BigAbs: abs}
+			return Slice{B: ba, Off: CI(64, 0), Len: n, Cap: n}
+		},
+		"encoding/hex.EncodeToString": func(m *Machine, a []Val) Val {
+			sl := a[0].(Slice)
+			if sl.B != nil && sl.B.BigAbs != "" {
+				return m.ufHex(sl.B.BigAbs)
+			}
+			st := m.bytesToStr(sl)
+			if st.IsC() {
+				return Str{C: hex.EncodeToString([]byte(st.C))}
+			}
+			out := Str{IsB: true}
+			nib := func(v string) Int {
+				return Int{W: 8, S: "(ite (bvult " + v + " #x0a) (bvadd " + v + " #x30) (bvadd " + v + " #x57))"}
+			}
+			for _, b := range st.B {
+				if b.IsC() {
+					h := hex.EncodeToString([]byte{byte(b.C)})
+					out.B = append(out.B, CI(8, uint64(h[0])), CI(8, uint64(h[1])))
+					continue
+				}
+				out.B = append(out.B, nib("(bvlshr "+b.S+" #x04)"), nib("(bvand "+b.S+" #x0f)"))
+			}
+			return out
 		},
 		"(*math/big.Int).String": func(m *Machine, a []Val) Val {
 			p := a[0].(Ptr)
@@ -1005,6 +1050,24 @@ func (m *Machine) ufBig(t string) Str {
 	return Str{S: nm, P: []strPart{{Big: t}}}
 }
 
+// ufHex: injective uninterpreted function standing for hex.EncodeToString(x.Bytes()) of a non-negative value.
+func (m *Machine) ufHex(t string) Str {
+	if _, ok := m.notes["decl:bighex"]; !ok {
+		m.ex.z.Send(fmt.Sprintf("(declare-fun bighex ((_ BitVec %d)) String)", bigW))
+		m.notes["decl:bighex"] = CB(true)
+	}
+	nm := m.ex.Name("bigh", "String", "(bighex "+t+")")
+	m.pendingAx = append(m.pendingAx, "(assert (str.in_re "+nm+" (re.* (re.union (re.range \"0\" \"9\") (re.range \"a\" \"f\")))))")
+	prev, _ := m.notes["bighex"].([]string)
+	for _, u := range prev {
+		if u != t {
+			m.pendingAx = append(m.pendingAx, "(assert (=> (not (= "+t+" "+u+")) (not (= (bighex "+t+") (bighex "+u+")))))")
+		}
+	}
+	m.notes["bighex"] = append(prev, t)
+	return Str{S: nm, P: []strPart{{Big: t, Hex: true}}}
+}
+
 func (m *Machine) flushAxioms() {
 	for _, a := range m.pendingAx {
 		m.ex.z.Send(a)
@@ -1130,4 +1193,95 @@ func (m *Machine) blockedOnOther(c *Cell) {
 			panic(pathEnd{"interleaving not schedulable: the interleaved operation blocks on a lock the suspended one holds"})
 		}
 	}
+}
+
+// renderArg renders one fmt argument for the verbs %s %v %d (strings, integers, big integers and
+// fmt.Stringer values of the code under test are what keys and identifiers are built from).
+func (m *Machine) renderArg(v Val, verb byte) (Str, bool) {
+	if i, ok := v.(Iface); ok {
+		if i.V == nil && i.T == nil {
+			return Str{C: "<nil>"}, verb == 'v'
+		}
+		// a *big.Int prints through its String method
+		if p, ok := i.V.(Ptr); ok && p.C != nil {
+			if b, ok := p.C.V.(Big); ok {
+				if b.V != nil {
+					return Str{C: b.V.String()}, true
+				}
+				return m.ufBig(b.T), true
+			}
+		}
+		if i.T != nil && (verb == 's' || verb == 'v') {
+			if sel := m.prog.MethodSets.MethodSet(i.T).Lookup(nil, "String"); sel == nil {
+				// no Stringer: fall through to the basic kinds
+			} else if fn := m.prog.MethodValue(sel); fn != nil && fn.Signature.Params().Len() == 0 && fn.Signature.Results().Len() == 1 {
+				if r, ok := m.callFunction(fn, []Val{i.V}, nil).(Str); ok {
+					return r, true
+				}
+			}
+		}
+		v = i.V
+	}
+	switch x := v.(type) {
+	case Str:
+		if verb == 's' || verb == 'v' {
+			return x, true
+		}
+	case Int:
+		if (verb == 'd' || verb == 'v') && x.IsC() {
+			if x.W == 64 {
+				return Str{C: strconv.FormatInt(x.Signed(), 10)}, true
+			}
+			return Str{C: strconv.FormatUint(x.C, 10)}, true
+		}
+	case Bool:
+		if x.IsC() && (verb == 'v' || verb == 't') {
+			return Str{C: strconv.FormatBool(x.C)}, true
+		}
+	}
+	return Str{}, false
+}
+
+// sprintf: exact for formats made of literal text and %s %v %d %% with renderable arguments; anything
+// else (widths, %x, %q, structs, errors ...) yields the opaque message constant used for log and error texts.
+func (m *Machine) sprintf(a []Val) Val {
+	opaque := Str{C: "<sprintf>"}
+	f, ok := a[0].(Str)
+	if !ok || !f.IsC() {
+		return opaque
+	}
+	args := m.sliceElems(a[1])
+	out := Str{}
+	lit := ""
+	ai := 0
+	for i := 0; i < len(f.C); i++ {
+		c := f.C[i]
+		if c != '%' {
+			lit += string(c)
+			continue
+		}
+		if i+1 >= len(f.C) {
+			return opaque
+		}
+		i++
+		verb := f.C[i]
+		if verb == '%' {
+			lit += "%"
+			continue
+		}
+		if (verb != 's' && verb != 'v' && verb != 'd') || ai >= len(args) {
+			return opaque
+		}
+		r, ok := m.renderArg(args[ai].V, verb)
+		ai++
+		if !ok {
+			return opaque
+		}
+		out = m.strConcat(m.strConcat(out, Str{C: lit}), r)
+		lit = ""
+	}
+	if ai != len(args) {
+		return opaque
+	}
+	return m.strConcat(out, Str{C: lit})
 }
